@@ -3,7 +3,8 @@
     sortHostsReverseHostPort/ReverseHostPort, route/routes.go Less, route/matcher.go).
     This file contains only statements, [exact], and [Print Assumptions]. *)
 From Coq Require Import String List NArith Bool Sorting.Permutation.
-From Fabio Require Import Lib.Outcome Lib.Bytes Model.Glob Model.Lookup Model.LookupCmd Proofs.Lookup Proofs.LookupOrder
+From Fabio Require Import Lib.Outcome Lib.Bytes Model.Glob Model.Lookup Model.LookupCmd Proofs.LookupGlob Proofs.Lookup
+  Proofs.LookupOrder
   Proofs.LookupCmd.
 Import ListNotations.
 Local Open Scope N_scope.
@@ -12,8 +13,10 @@ Local Open Scope N_scope.
    host pattern matches the request host (case-insensitively, default port removed) or that
    has no host, and whose path matches under the configured matcher.  All tables, requests,
    matchers, glob on/off; [wf_keys] = the keys are lower-case (addRoute lower-cases them);
-   outside region 6 (gobwas/glob deviating from glob semantics).  Region 5 (keys ending in
-   ':') was repaired in /repo by cf1c479 and is no longer excluded. *)
+   outside region 6 (the selected route is one on whose host key or glob path gobwas/glob
+   deviates from glob semantics).  Region 5 (keys ending in ':') was repaired in /repo by
+   cf1c479 and is no longer excluded.  [wf_keys] holds for every table NewTable builds
+   (C03_new_table_wf) and every table reachable by commands (C03_cmd_table_reachable). *)
 Theorem C03_lookup_sound : forall t host tls uri m globoff c,
   wf_keys t ->
   F_C03_gobwas_overlap globoff tls m t host uri = false ->
@@ -22,11 +25,11 @@ Theorem C03_lookup_sound : forall t host tls uri m globoff c,
 Proof. exact lookup_sound. Qed.
 Print Assumptions C03_lookup_sound.
 
-(* If any candidate exists the request is routed (outside region 6; regions 1 and 5 were
-   repaired in /repo by 3f5e3c8 / cf1c479 and are no longer excluded). *)
+(* If any candidate exists the request is routed: no region excluded (regions 1 and 5 were
+   repaired in /repo by 3f5e3c8 / cf1c479; gobwas/glob's deviations only ADD matches,
+   C03_glob_implies_gobwas, so region 6 cannot lose a route). *)
 Theorem C03_lookup_complete : forall t host tls uri m globoff c,
   wf_keys t -> NoDup (keys t) ->
-  F_C03_gobwas_overlap globoff tls m t host uri = false ->
   In c (all_routes t) -> is_candidate globoff tls m host uri c = true ->
   lookup t host tls uri m globoff <> None.
 Proof. exact lookup_complete. Qed.
@@ -51,6 +54,38 @@ Theorem C03_iprefix_longest_wins : forall t host tls uri globoff k p id,
                  (length p' <= length p)%nat.
 Proof. exact iprefix_longest_wins. Qed.
 Print Assumptions C03_iprefix_longest_wins.
+
+(* What the code implements for EVERY matcher, the glob matcher included: within the host that
+   answers, the first matching route in Routes.Less order (lower-cased path, then path,
+   descending) is selected.  For prefix / iprefix this gives "longest matching path" (above).
+   For the glob matcher the length of a pattern is no measure of specificity; the property's
+   "longest path" clause has no independent reading there and is NOT covered as a specificity
+   claim: this theorem is the statement of the code's rule. *)
+Theorem C03_first_in_route_order : forall t host tls uri m globoff k p id,
+  table_sorted t ->
+  lookup t host tls uri m globoff = Some (k, p, id) ->
+  forall p' id', In (p', id') (assoc t k) -> path_match m uri p' = true ->
+                 route_ltb (p, id) (p', id') = false.
+Proof. exact first_in_route_order. Qed.
+Print Assumptions C03_first_in_route_order.
+
+(* Table.LookupHost (TCP/SNI): the key is the lower-cased host itself, the path "/" *)
+Theorem C03_lookup_host_exact : forall t host k p id,
+  lookup1 t host [47] MPrefix = Some (k, p, id) ->
+  k = lower host /\ In (p, id) (assoc t k) /\ has_prefix [47] p = true.
+Proof. exact lookup_host_exact. Qed.
+Print Assumptions C03_lookup_host_exact.
+
+(* gobwas/glob v0.2.3 (as modelled) accepts everything glob semantics accepts *)
+Theorem C03_glob_implies_gobwas : forall p s, glob_match p s = true -> gobwas_match p s = true.
+Proof. exact glob_implies_gobwas. Qed.
+Print Assumptions C03_glob_implies_gobwas.
+
+(* the hypotheses of sound / complete hold for every table NewTable builds, whatever the
+   definitions (ports, any pattern syntax) *)
+Theorem C03_new_table_wf : forall defs, wf_keys (new_table defs) /\ NoDup (keys (new_table defs)).
+Proof. exact new_table_wf. Qed.
+Print Assumptions C03_new_table_wf.
 
 (* the hypotheses are what NewTable establishes / what ordinary keys satisfy *)
 Theorem C03_new_table_sorted : forall defs, table_sorted (new_table defs).
@@ -82,24 +117,23 @@ Print Assumptions C03_matching_host_noglob_perm.
    (a Go map), without ':' (no explicit port in the key; keys with ports are covered by the
    correspondence run only) and without '[' '{' '\' (syntax outside the glob model), routes
    sorted as NewTable sorts them; [region ... = None] = none of the two open finding
-   regions applies: 6 (gobwas/glob deviating from glob semantics),
-   3 (a '?' directly before a
-   pattern's literal host suffix competing with a longer suffix whose byte there is <= '?');
-   [host_bytes_ok] = every byte of the normalised Host is above '*' in byte order (letters,
-   digits, '-', '.', ':' all are).  Regions 1, 2, 4, 5, 7 were repaired in /repo (3f5e3c8,
-   c1f03c0, bc98e3c, cf1c479, 1814501) and are no longer excluded; in particular an empty request
-   host is inside the domain, so [C03_hostless_last] holds for it too. *)
+   regions applies: 6 (the selected route is one on which gobwas/glob deviates from glob
+   semantics), 3 (two matching patterns, the one with the shorter literal host suffix has
+   its metacharacter '*' / '?' at or above the host byte that precedes that suffix:
+   '*' vs the bytes 33..42, '?' vs digits '-' '.' ':' ...).  There is no other hypothesis on
+   the request (any host bytes, empty host included).  Regions 1, 2, 4, 5, 7 were repaired in
+   /repo (3f5e3c8, c1f03c0, bc98e3c, cf1c479, 1814501) and are no longer excluded. *)
 
 (* THE PROPERTY on the domain: what Lookup returns satisfies the brute-force specification:
    it is a candidate, no candidate beats it, and it is None only if there is no candidate. *)
 Theorem C03_lookup_meets_spec_on_domain : forall t host tls uri m globoff,
-  table_ok t -> region t globoff tls m host uri = None -> host_bytes_ok host tls ->
+  table_ok t -> region t globoff tls m host uri = None ->
   spec_b t globoff tls m host uri (lookup t host tls uri m globoff) = true.
 Proof. exact lookup_meets_spec_on_domain. Qed.
 Print Assumptions C03_lookup_meets_spec_on_domain.
 
 Theorem C03_lookup_unbeaten_on_domain : forall t host tls uri m globoff c,
-  table_ok t -> region t globoff tls m host uri = None -> host_bytes_ok host tls ->
+  table_ok t -> region t globoff tls m host uri = None ->
   lookup t host tls uri m globoff = Some c ->
   forall c', In c' (candidates t globoff tls m host uri) -> beats globoff tls m c' c = false.
 Proof. exact lookup_unbeaten_on_domain. Qed.
@@ -107,7 +141,7 @@ Print Assumptions C03_lookup_unbeaten_on_domain.
 
 (* host-less routes are used only when no host-specific route matches *)
 Theorem C03_hostless_last : forall t host tls uri m globoff p id,
-  table_ok t -> region t globoff tls m host uri = None -> host_bytes_ok host tls ->
+  table_ok t -> region t globoff tls m host uri = None ->
   lookup t host tls uri m globoff = Some ([], p, id) ->
   forall k' p' id', In (k', p', id') (candidates t globoff tls m host uri) -> k' = [].
 Proof. exact hostless_last. Qed.
@@ -115,11 +149,10 @@ Print Assumptions C03_hostless_last.
 
 (* an exact host beats every pattern, whatever its metacharacters (since /repo bc98e3c: no
    side condition on the pattern's literal tail, no condition on '?', on the host being
-   non-empty (1814501) or [host_bytes_ok]):
+   non-empty (1814501), on the host bytes, or on gobwas/glob (region 6)):
    if an exact-host candidate exists, the selected route's host is exact *)
 Theorem C03_exact_beats_wildcard : forall t host tls uri m k p id,
   table_ok t ->
-  F_C03_gobwas_overlap false tls m t host uri = false ->
   lookup t host tls uri m false = Some (k, p, id) ->
   forall k' p' id', In (k', p', id') (candidates t false tls m host uri) ->
     k' <> [] -> has_meta k' = false -> k <> [] /\ has_meta k = false.
@@ -128,7 +161,7 @@ Print Assumptions C03_exact_beats_wildcard.
 
 (* a longer host suffix beats a shorter one *)
 Theorem C03_longer_suffix_first : forall t host tls uri m k p id,
-  table_ok t -> region t false tls m host uri = None -> host_bytes_ok host tls ->
+  table_ok t -> region t false tls m host uri = None ->
   lookup t host tls uri m false = Some (k, p, id) ->
   forall k' p' id', In (k', p', id') (candidates t false tls m host uri) ->
     has_meta k' = true -> has_meta k = true ->
@@ -158,9 +191,11 @@ Print Assumptions C03_new_table_ok.
    Table.lookup returns nil at a route without targets and so hides the shorter routes of
    the host.  No table reachable by commands, of any length, has such a route (the sweeps of
    delRoute remove them all), so on reachable tables Lookup including that branch
-   ([lookup_cmd]) is [lookup] and the theorems above apply. *)
+   ([lookup_cmd]) is [lookup]; [wf_keys], [NoDup (keys t)] and [table_sorted] hold, so
+   C03_lookup_sound / _complete / _prefix_longest_wins / _iprefix_longest_wins /
+   _first_in_route_order instantiate for them. *)
 Theorem C03_cmd_table_reachable : forall cs t,
-  cmd_table cs = Ok t -> no_targetless t /\ NoDup (keys t) /\ table_sorted t.
+  cmd_table cs = Ok t -> no_targetless t /\ wf_keys t /\ NoDup (keys t) /\ table_sorted t.
 Proof. exact cmd_table_reachable. Qed.
 Print Assumptions C03_cmd_table_reachable.
 
@@ -223,6 +258,16 @@ Theorem C03_metachar_among_patterns_refuted :
   /\ region (new_table defs) false false MPrefix (bs "1.foo.com") (bs "/") = Some 3.
 Proof. exact metachar_among_patterns_refuted. Qed.
 Print Assumptions C03_metachar_among_patterns_refuted.
+
+(* F-C03-3, the same mechanism with '*' and a host byte in 33..42 (current code): Host a!.x,
+   routes *.x/ and *!.x/ -> *.x/ (the shorter literal host suffix) is selected *)
+Theorem C03_low_byte_host_refuted :
+  let defs := [(bs "*.x", bs "/", 0); (bs "*!.x", bs "/", 1)] in
+  ex_refuted defs (bs "a!.x") false (bs "/") MPrefix false (Some (bs "*.x", bs "/", 0))
+  /\ beats false false MPrefix (bs "*!.x", bs "/", 1) (bs "*.x", bs "/", 0) = true
+  /\ region (new_table defs) false false MPrefix (bs "a!.x") (bs "/") = Some 3.
+Proof. exact low_byte_host_refuted. Qed.
+Print Assumptions C03_low_byte_host_refuted.
 
 (* F-C03-4, REPAIRED in /repo by bc98e3c: about the host order before the repair: *foo.com
    was tried before the exact host foo.com; the current Lookup selects the exact host. *)
@@ -293,7 +338,15 @@ Print Assumptions C03_nonvacuous.
 
 Theorem C03_on_domain_nonvacuous :
   let t := new_table ex_defs in
-  table_ok t /\ region t false false MPrefix (bs "B.A.FOO.COM") (bs "/x/y") = None
-  /\ host_bytes_ok (bs "B.A.FOO.COM") false.
+  let h := bs "B.A.FOO.COM" in
+  table_ok t
+  /\ region t false false MPrefix h (bs "/x/y") = None
+  (* glob matching disabled, iprefix, glob matcher, TLS with the default port *)
+  /\ region t true false MPrefix (bs "*.A.foo.com") (bs "/x/y") = None
+  /\ lookup t (bs "*.A.foo.com") false (bs "/x/y") MPrefix true = Some (bs "*.a.foo.com", bs "/x", 4)
+  /\ region t false false MIPrefix h (bs "/X/y") = None
+  /\ lookup t h false (bs "/X/y") MIPrefix false = Some (bs "*.a.foo.com", bs "/x", 4)
+  /\ region t false true MGlob (bs "b.a.foo.com:443") (bs "/x") = None
+  /\ lookup t (bs "b.a.foo.com:443") true (bs "/x") MGlob false = Some (bs "*.a.foo.com", bs "/x", 4).
 Proof. exact on_domain_nonvacuous. Qed.
 Print Assumptions C03_on_domain_nonvacuous.
